@@ -4,10 +4,10 @@ import math
 
 from harness.core import pool, tb
 
-PROOF_MODULE = "OdeVerif.Proofs.C13"
+PROOF_MODULE = ["OdeVerif.Proofs.C13", "OdeVerif.Proofs.C13b"]
 THEOREMS = ["OdeVerif.C13.log_starts_at_iv", "OdeVerif.C13.time_strictly_increases", "OdeVerif.C13.ends_at_simTime",
             "OdeVerif.C13.precise_spike_once", "OdeVerif.C13.aliased_spike_once", "OdeVerif.C13.aliased_spike_boundary",
-            "OdeVerif.C13.enforceBounds_spec", "OdeVerif.C13.inner_logs_enforced"]
+            "OdeVerif.C13.enforceBounds_spec", "OdeVerif.C13.inner_logs_enforced", "OdeVerif.C13.analytic_seen_exact", "OdeVerif.C13.analytic_seen_exact_at"]
 LEVEL = "proof"
 
 SYSTEMS = [
@@ -132,13 +132,41 @@ def case_numeric(case):
                          analytic_solver_dict=ana[0] if ana else None, parameters=indict.get("parameters"),
                          spike_times={k: list(v) for k, v in case["spike_times"].items()}, max_step_size=case["max_step"],
                          integration_accuracy_abs=case["acc"], integration_accuracy_rel=case["acc"], sim_time=case["sim_time"], alias_spikes=case["alias"])
+    # record the operations integrate_ode performs on its analytic integrator (model: C13.simPattern)
+    from odetoolbox.analytic_integrator import AnalyticIntegrator
+    ai_ops = []
+    o_g, o_e, o_d = AnalyticIntegrator.get_value, AnalyticIntegrator.enable_cache_update, AnalyticIntegrator.disable_cache_update
+
+    def w_g(self, t):
+        ai_ops.append("G")
+        return o_g(self, t)
+
+    def w_e(self):
+        ai_ops.append("E")
+        return o_e(self)
+
+    def w_d(self):
+        ai_ops.append("D")
+        return o_d(self)
+    AnalyticIntegrator.get_value, AnalyticIntegrator.enable_cache_update, AnalyticIntegrator.disable_cache_update = w_g, w_e, w_d
+    try:
+        return _case_numeric_body(case, odetoolbox, odeiv, MixedIntegrator, indict, res, shape_sys, shapes, ana, num, sub, mi, ai_ops, truthcheck, solve_ivp)
+    finally:
+        AnalyticIntegrator.get_value, AnalyticIntegrator.enable_cache_update, AnalyticIntegrator.disable_cache_update = o_g, o_e, o_d
+
+
+def _case_numeric_body(case, odetoolbox, odeiv, MixedIntegrator, indict, res, shape_sys, shapes, ana, num, sub, mi, ai_ops, truthcheck, solve_ivp):
+    import numpy as np
+    import sympy
     reuse = None
     if ana and case.get("reuse", True):
         # a run with an overridden initial value of an analytically solved variable must not influence the next run on the
         # same object: the second run is compared with the same run on a fresh object
         av = ana[0]["state_variables"][0]
         mi.integrate_ode(initial_values={sympy.Symbol(av): 3.0}, h_min_lower_bound=1e-14, raise_errors=False, debug=True)
+    del ai_ops[:]
     out = mi.integrate_ode(h_min_lower_bound=1e-14, raise_errors=False, debug=True)
+    pattern = "".join(ai_ops)
     if ana and case.get("reuse", True):
         mi_f = MixedIntegrator(odeiv.step_rk4 if case["stepper"] == "rk4" else odeiv.step_bsimp, sub, shapes,
                                analytic_solver_dict=[s_ for s_ in odetoolbox.analysis(json.loads(json.dumps(indict)), disable_stiffness_check=True) if s_["solver"] == "analytical"][0],
@@ -172,7 +200,7 @@ def case_numeric(case):
             bounds[nm] = (float(d["upper_bound"]) if "upper_bound" in d else None, float(d["lower_bound"]) if "lower_bound" in d else None)
     y0 = [iv[v] for v in allv]
     return {"x": x, "allv": allv, "t_log": [float(t) for t in t_log], "y_log": [[float(v) for v in row] for row in y_log], "crossed": bool(crossed),
-            "y0": y0, "bounds": bounds, "reuse": reuse}
+            "y0": y0, "bounds": bounds, "reuse": reuse, "ai_pattern": pattern if ana else None}
 
 
 def _reference(f, allv, y0, case, t_log, bounds, x):
@@ -312,6 +340,12 @@ def oracle_events(ctx, case, res):
 def oracle_numeric(ctx, case, res):
     t_log, y_log, x = res["t_log"], res["y_log"], res["x"]
     sig = {"alias": case["alias"], "stepper": case["stepper"]}
+    pat = res.get("ai_pattern")
+    if pat is not None:
+        import re
+        ctx.count("ai_pattern_checked")
+        if not re.fullmatch(r"((DG*EG)*G)*", pat):
+            ctx.tie_break("corr:ai-op-pattern", {"case": case, "pattern_head": pat[:120], "model": "C13.simPattern: ((disable, get*, enable, get)* get)*"})
     ru = res.get("reuse")
     if ru is not None:
         ctx.count("reuse_checked")
